@@ -46,6 +46,9 @@ pub struct Spec {
     pub family: String,
     pub source: Vec<u8>,
     pub plans: Vec<Plan>,
+    /// Exec tier: "exec" = one exec per launch, "fork" = children of a fork server that stopped
+    /// the real binary before its own initialisers (same code, ~10x the throughput).
+    pub launcher: String,
 }
 
 impl Spec {
@@ -61,6 +64,7 @@ impl Spec {
             "source_hex": if std::str::from_utf8(&self.source).is_ok() { Value::Null } else {
                 Value::String(self.source.iter().map(|b| format!("{b:02x}")).collect()) },
             "plans": self.plans.iter().map(Plan::to_json).collect::<Vec<_>>(),
+            "launcher": self.launcher,
         })
     }
     pub fn from_json(v: &Value) -> Option<Spec> {
@@ -79,6 +83,7 @@ impl Spec {
             family: v.get("family").and_then(Value::as_str).unwrap_or("replay").to_owned(),
             source,
             plans: v.get("plans")?.as_array()?.iter().filter_map(Plan::from_json).collect(),
+            launcher: v.get("launcher").and_then(Value::as_str).unwrap_or("exec").to_owned(),
         })
     }
 }
@@ -209,7 +214,9 @@ pub fn derive_spec(seed: u64, tier: Tier, idx: usize, corpus: &[String], shape: 
     };
     let path_abs = rng.chance(1, 3);
     let plans = derive_plans(&mut rng, tier, shape.plans);
+    let launcher = if tier == Tier::Exec && rng.chance(4, 5) { "fork" } else { "exec" };
     Spec {
+        launcher: launcher.to_owned(),
         tier,
         form,
         colour,
@@ -355,7 +362,12 @@ pub fn run_spec(spec: &Spec, envs: &Envs, scratch_tag: &str, stop_at_first: bool
         let (obs, log) = match spec.tier {
             Tier::InProc => obs_inproc(spec, &path_arg, plan, envs.step_budget, &mut out.orders),
             Tier::Exec => {
-                match sim_exec::launch_gram(&envs.exec, spec.form, &path_arg, &dir, &dir, spec.colour, plan, &format!("l{i}")) {
+                let launched = if spec.launcher == "fork" {
+                    sim_exec::launch_forked(&envs.exec, &envs.exec.gram, &spec.form.argv(&path_arg), &dir, &dir, spec.colour, plan, &format!("l{i}"))
+                } else {
+                    sim_exec::launch_gram(&envs.exec, spec.form, &path_arg, &dir, &dir, spec.colour, plan, &format!("l{i}"))
+                };
+                match launched {
                     Ok((o, log)) => {
                         let abnormal = match &o.ending {
                             Ending::Exit(_) => None,
@@ -378,6 +390,13 @@ pub fn run_spec(spec: &Spec, envs: &Envs, scratch_tag: &str, stop_at_first: bool
                             },
                             log,
                         )
+                    }
+                    Err(e) if spec.launcher == "fork" => {
+                        // the fork server lost sync (it is restarted for the next group); nothing
+                        // can be concluded about this group
+                        out.status = "skipped_resource".to_owned();
+                        out.note = format!("fork server: {e}");
+                        break;
                     }
                     Err(e) => {
                         out.status = "harness_error".to_owned();
